@@ -155,8 +155,8 @@ class SMIO(GameIO):
             for rows in c.get("measures", []):
                 if len(rows) % 4 or not rows:
                     return "measure with a row count that is not a multiple of 4"
-        if not doc.get("bpms") or float(doc["bpms"][0][0]) != 0:
-            return "first tempo entry not at beat 0"
+        if not doc.get("bpms") or min(float(b[0]) for b in doc["bpms"]) != 0:
+            return "no tempo entry at beat 0"  # (it need not be listed first)
         return ""
 
     def read(self, path, layout=None):
